@@ -211,6 +211,35 @@ def c04g(ctx, tu):
                detail="" if ok else "the forbidden-call report must be preceded by marking the expectation as reported")
 
 
+def c04h(ctx, tu):
+    """movable mocks: the move constructor of the expectations holder carries BOTH lists over (so that
+    `linked` - and with it every end-of-life and saturated-match report - follows the mock)"""
+    for c in tu.classes.values():
+        if not c["q"].startswith("trompeloeil::expectations<true") or c.get("incomplete"):
+            continue
+        mv = c.get("special", {}).get("move_ctor", {})
+        st = mv.get("status")
+        ok = st == "defaulted"
+        why = ""
+        if not ok and st == "user" and mv.get("fn") in tu.fns and tu.fns[mv["fn"]].has_body:
+            f = tu.fns[mv["fn"]]
+            moved = set()
+            for b, e in f.events():
+                if e["e"] == "init" and "field" in e and "param" in str(e.get("x")):
+                    moved.add(erase(e["field"]).rsplit("::", 1)[-1])
+                if e["e"] == "call" and e.get("op") == "=" and "param" in str(e.get("args")):
+                    r = lib.strip_casts(e.get("recv"))
+                    if isinstance(r, list) and r[:1] == ["member"]:
+                        moved.add(erase(r[1]).rsplit("::", 1)[-1])
+            ok = {"active", "saturated"} <= moved
+            why = "the move constructor of a movable mock's expectation holder moves only %s" % sorted(moved)
+        elif not ok:
+            why = "the move constructor of a movable mock's expectation holder is %s" % st
+        ctx.ob("C04.h", "trompeloeil::expectations<true> move constructor", ok, pattern=short_loc(c.get("loc", "")),
+               unit=tu.name, detail="" if ok else why + ": saturated (or active) expectations stay behind in the "
+               "moved-from mock and are silently dropped when it dies")
+
+
 def run(ctx):
     ctx.explanation = (
         "C04.a truth table of is_unfulfilled over (reported, linked, satisfied); C04.b both end-of-life "
@@ -232,5 +261,7 @@ def run(ctx):
         c04d(ctx, tu)
         c04e(ctx, tu)
         c04g(ctx, tu)
+        C15.c15c(ctx, tu)    # C04.h: an expectation is marked `reported` only by a report that really lists it
+        c04h(ctx, tu)
         units.append({"unit": tu.name, "functions": len(tu.fns)})
     ctx.extra["units"] = units
